@@ -220,7 +220,7 @@ func (c *c06Oracle) Check(w *World, o *Obs) []Violation {
 		}
 	}
 	// cookies issued before a change
-	if ck := o.presented("cookie"); ck != nil && o.IsHTTP && ck.Known != nil && ck.Status == "revoked" && o.uidBefore() == "" && ck.Known.Acct >= 0 && ck.Known.Acct < len(w.Accts) &&
+	if ck := o.presented("cookie"); ck != nil && o.IsHTTP && ck.Known != nil && (ck.Status == "revoked" || ck.Status == "spent" && ck.Known.BeforeChange) && o.uidBefore() == "" && ck.Known.Acct >= 0 && ck.Known.Acct < len(w.Accts) &&
 		w.rememberActive() {
 		pidc := w.Accts[ck.Known.Acct].PID
 		if uid, ok := hasPut(o.SessEvents, "uid"); ok && uid == pidc && st.Kind == "probe" {
